@@ -1,0 +1,48 @@
+//go:build verif
+
+package p2p
+
+import (
+	"crypto/ecdsa"
+	"net"
+
+	"github.com/zenon-network/go-zenon/p2p/discover"
+)
+
+// Exports for the verification harness (/verif): the transport of one connection exactly as Server.setupConn
+// creates and drives it (srv.newTransport = newRLPX, then doEncHandshake, then doProtoHandshake), for the listening
+// side (dial == nil) as well as for the dialing side, and the sizes of the encryption handshake messages.
+
+const (
+	VerifSigLen = sigLen
+	VerifPubLen = pubLen
+	VerifShaLen = shaLen
+
+	VerifAuthMsgLen     = authMsgLen
+	VerifAuthRespLen    = authRespLen
+	VerifEciesOverhead  = eciesBytes
+	VerifEncAuthMsgLen  = encAuthMsgLen
+	VerifEncAuthRespLen = encAuthRespLen
+)
+
+// VerifTransport wraps the transport of a connection.
+type VerifTransport struct{ t transport }
+
+// VerifNewRLPX is newRLPX: it arms the handshake deadline on fd.
+func VerifNewRLPX(fd net.Conn) *VerifTransport { return &VerifTransport{t: newRLPX(fd)} }
+
+// DoEncHandshake runs the encryption handshake; dial == nil on the listening side.
+func (v *VerifTransport) DoEncHandshake(prv *ecdsa.PrivateKey, dial *discover.Node) (discover.NodeID, error) {
+	return v.t.doEncHandshake(prv, dial)
+}
+
+// DoProtoHandshake runs the protocol handshake (valid after DoEncHandshake succeeded).
+func (v *VerifTransport) DoProtoHandshake(our *VerifProtoHandshake) (*VerifProtoHandshake, error) {
+	return v.t.doProtoHandshake(our)
+}
+
+func (v *VerifTransport) ReadMsg() (Msg, error) { return v.t.ReadMsg() }
+func (v *VerifTransport) WriteMsg(m Msg) error  { return v.t.WriteMsg(m) }
+
+// Close is transport.close: it tells the remote side the reason if there is a frame writer, and closes fd.
+func (v *VerifTransport) Close(err error) { v.t.close(err) }
